@@ -193,7 +193,7 @@ PATHS = [
 ]
 for name, fns, tier in PATHS:
     nc = 3 if '3c' in name else 2
-    ob(f'llfree::{name}', ['C09', 'C13', 'C15', 'C02', 'C04'] + (['C11'] if 'get_local' in name else []) + (['C10'] if name in ('l2_get_at_2c', 'l2_get_targeted_2c', 'l2_steal_global_at_2c') else []), fns, tier=tier, kind='config-bounded',
+    ob(f'llfree::{name}', ['C09', 'C13', 'C15', 'C02', 'C04'] + (['C11', 'C21'] if 'get_local' in name else []) + (['C10'] if name in ('l2_get_at_2c', 'l2_get_targeted_2c', 'l2_steal_global_at_2c') else []), fns, tier=tier, kind='config-bounded',
        bound=L2B % (nc - 1, ', last class WITHOUT slots' if '3c' in name else '') + '; every order, class, slot choice' + ('; every target block' if '_at' in name or 'targeted' in name else ''),
        assumes=G_ASSUMES, timeout=1500, cover=False)
 ob('trees::l1b_search_best_result_n3', ['C09', 'C13', 'C16'], ['trees::Trees::search_best'], kind='config-bounded', tier='thorough',
@@ -314,4 +314,21 @@ for name, fns, props in (('c0_steal_global_2c', ['llfree::LLFree::steal_global']
 COVER_ON = COVER_ON + ('c10_drained_base_order_modular', 'c11_single_slot_modular')
 for _o in OBS:
     if _o['harness'] in ('c10_drained_base_order_modular_2c', 'c11_single_slot_modular'):
+        _o['cover'] = True
+
+# non-contiguous class ids, NvmAlloc, metadata sizes, more slot configurations
+ob('llfree::l2_tree_stats_gap_classes', ['C14', 'C04'], ['llfree::LLFree::tree_stats', 'local::Locals::stats'], kind='config-bounded',
+   bound='2 trees, classes 0 and 2 configured (class 1 NOT configured: non-contiguous ids), all states under invariant I', assumes=L2_ASSUMES, cover=False)
+ob('wrapper::c17_nvm_create_layout', ['C17', 'C18'], ['wrapper::NvmAlloc::create', 'wrapper::ZoneAlloc::create'], kind='config-bounded',
+   bound='zone of 8 frames (32 KiB) at the address CBMC assigns (8 MiB-aligned case explored), inner allocator = recording stub with the real lower-metadata size')
+ob('wrapper::c17_nvm_recover_header', ['C17'], ['wrapper::NvmAlloc::create'], kind='config-bounded', bound='zone of 8 frames, ANY header contents (magic, frame count)')
+ob('trees::l0_trees_metadata_size', ['C18', 'C08'], ['trees::Trees::metadata_size'], bound='frames <= 2^44, against an independent ceil-division spec', cover=False)
+ob('local::l0_locals_metadata_size', ['C18', 'C08'], ['local::Locals::metadata_size'], bound='three classes with up to 64 slots each', cover=False)
+ob('local::l1b_locals_steal_any_3_1_0', ['C09', 'C13', 'C18'], ['local::Locals::steal_any'], tier='thorough', kind='config-bounded', timeout=1500,
+   bound='classes with (3,1,0) slots (requester slot index beyond the slot count of the target class)', cover=False)
+ob('local::l1b_locals_demote_any_3_0_1', ['C09', 'C13', 'C18'], ['local::Locals::demote_any'], tier='thorough', kind='config-bounded', timeout=1500, bound='classes with (3,0,1) slots', cover=False)
+OBS[:] = [o for o in OBS if o['harness'] != 'l1b_locals_steal_any_2_1_0']
+COVER_ON = COVER_ON + ('c17_nvm_',)
+for _o in OBS:
+    if _o['harness'].startswith('c17_nvm_'):
         _o['cover'] = True
